@@ -20,7 +20,7 @@ from __future__ import annotations
 import ast
 from typing import Dict, List, Optional, Sequence, Set, Tuple
 
-from engines import absdom, pyfacts as pf
+from engines import absdom, c13facts as cf, pyfacts as pf
 from engines.common import AnalysisError, Ctx, short
 
 META = dict(
@@ -45,8 +45,7 @@ PACK_PARAMS = ('cpu_in_mcpu', 'memory_in_bytes', 'worker_fraction_in_1024ths')
 EXT_PARAM = 'external_storage_in_gib'
 
 
-def _methods(cls: ast.ClassDef) -> Dict[str, pf.FuncDef]:
-    return {s.name: s for s in cls.body if isinstance(s, (ast.FunctionDef, ast.AsyncFunctionDef))}
+_methods = cf.methods
 
 
 def _class_consts(cls: ast.ClassDef) -> Dict[str, ast.expr]:
@@ -80,17 +79,39 @@ def _const_value(m: pf.Module, cls: ast.ClassDef, e: ast.AST):
 # --------------------------------------------------------------------------------------
 
 
+_CLASSES: cf.Classes = {}      # every analysed class (resource mixins, cloud resources, instance configs), filled by run()
+_TYPED_DICTS: Set[str] = set()  # TypedDict classes of batch/batch/resources.py (QuantifiedResource): calling one builds a fresh dict
+
+
 def _written(ctx: Ctx, m: pf.Module, cls: ast.ClassDef) -> Dict[str, ast.expr]:
-    fn = _methods(cls)['to_dict']
-    rets = [n for n in pf.walk_shallow(fn) if isinstance(n, ast.Return)]
-    ctx.need(len(rets) == 1 and rets[0].value is not None, f'{m.rel}::{cls.name}.to_dict: expected a single return')
-    d = pf.resolve_expr(fn, rets[0].value)
-    ctx.need(isinstance(d, ast.Dict), f'{m.rel}::{cls.name}.to_dict does not return a dict literal')
-    out: Dict[str, ast.expr] = {}
-    for k, v in zip(d.keys, d.values):  # type: ignore[union-attr]
-        ctx.need(k is not None and pf.const_str(k) is not None, f'{m.rel}::{cls.name}.to_dict: non-constant key')
-        out[pf.const_str(k)] = v  # type: ignore[index,arg-type]
-    return out
+    """key -> value expression over self.<attr> / constants that to_dict writes.  The body is evaluated abstractly (engines/c13facts.DictEval): locals,
+    tuple unpacking, `d = {...}; d['k'] = v`, `d.update(...)`, `super().to_dict()` and same-class helpers are seen through; the written key set must
+    be the same on every path."""
+    if _CLASSES.get(cls.name, (None, None))[1] is not cls:
+        fn = _methods(cls)['to_dict']
+        rets = [n for n in pf.walk_shallow(fn) if isinstance(n, ast.Return)]
+        ctx.need(len(rets) == 1 and rets[0].value is not None, f'{m.rel}::{cls.name}.to_dict: expected a single return')
+        d = pf.resolve_expr(fn, rets[0].value)
+        ctx.need(isinstance(d, ast.Dict), f'{m.rel}::{cls.name}.to_dict does not return a dict literal')
+        out0: Dict[str, ast.expr] = {}
+        for k, v in zip(d.keys, d.values):  # type: ignore[union-attr]
+            ctx.need(k is not None and pf.const_str(k) is not None, f'{m.rel}::{cls.name}.to_dict: non-constant key')
+            out0[pf.const_str(k)] = cf.expand(fn, v)  # type: ignore[index,arg-type]
+        return out0
+    ev = cf.DictEval(_CLASSES, cls.name, sorted(_TYPED_DICTS))
+    paths = ev.run('to_dict')
+    ctx.need(paths, f'{m.rel}::{cls.name}.to_dict: no path returns')
+    out: Optional[Dict[str, ast.expr]] = None
+    for p in paths:
+        ctx.need(isinstance(p.result, cf.Obj) and not p.result.open, f'{m.rel}::{cls.name}.to_dict: a path returns `{p.result if not isinstance(p.result, ast.AST) else short(pf.nsrc(p.result), 40)}`, '
+                 'not a dict with known keys')
+        items = p.result.items  # type: ignore[union-attr]
+        if out is None:
+            out = dict(items)
+        else:
+            ctx.need({k: pf.nsrc(v) for k, v in out.items()} == {k: pf.nsrc(v) for k, v in items.items()},
+                     f'{m.rel}::{cls.name}.to_dict writes different dictionaries on different paths (not a recognised shape)')
+    return out or {}
 
 
 def _init_map(ctx: Ctx, m: pf.Module, cls: ast.ClassDef) -> Tuple[List[str], Dict[str, str]]:
@@ -108,6 +129,164 @@ def _init_map(ctx: Ctx, m: pf.Module, cls: ast.ClassDef) -> Tuple[List[str], Dic
     return params, store
 
 
+def _init_fn(cls: ast.ClassDef) -> Optional[pf.FuncDef]:
+    fn = _methods(cls).get('__init__')
+    if fn is not None:
+        return fn
+    for cn in cf.mro(cls.name, _CLASSES)[1:]:
+        fn = _methods(_CLASSES[cn][1]).get('__init__')
+        if fn is not None:
+            return fn
+    return None
+
+
+def _param_info(fn: pf.FuncDef) -> Tuple[Dict[str, Optional[ast.expr]], Dict[str, ast.expr]]:
+    """(parameter -> annotation, parameter -> default) of a constructor"""
+    params = fn.args.args[1:]
+    ann = {a.arg: a.annotation for a in params}
+    dfl = dict(zip([a.arg for a in params][len(params) - len(fn.args.defaults):], fn.args.defaults))
+    return ann, dfl
+
+
+_COLLECTION_TYPES = ('Dict', 'dict', 'List', 'list', 'Mapping', 'MutableMapping', 'Sequence', 'Set', 'set', 'FrozenSet', 'frozenset', 'Iterable', 'Collection',
+                     'typing.Dict', 'typing.List', 'typing.Mapping', 'typing.Sequence', 'typing.Set', 'OrderedDict', 'DefaultDict')
+
+
+def _is_collection_annotation(a: Optional[ast.expr]) -> bool:
+    if a is None:
+        return False
+    if isinstance(a, ast.Constant) and isinstance(a.value, str):
+        try:
+            a = ast.parse(a.value, mode='eval').body
+        except SyntaxError:
+            return False
+    head = a.value if isinstance(a, ast.Subscript) else a
+    return pf.dotted(head) in _COLLECTION_TYPES
+
+
+# --- structural identity of from_dict o to_dict on one attribute ----------------------------------------------------------------------
+
+_SUMMARISERS = ('next', 'min', 'max', 'len', 'sum', 'any', 'all')
+_PASS_CALLS = ('iter', 'list', 'sorted', 'tuple', 'dict', 'reversed', 'set', 'frozenset')
+_PASS_METHODS = ('values', 'items', 'keys', 'copy')
+
+
+def _is_identity_on(h: ast.AST, attr: str, annotation: Optional[ast.expr]) -> bool:
+    """h (an expression over self.*) denotes a value equal to self.<attr>: the attribute itself, a shallow / element-wise copy of it, a cast to its own
+    annotated type, or json.loads(json.dumps(.)) around one of these."""
+    if pf.nsrc(h) == f'self.{attr}':
+        return True
+    if isinstance(h, ast.Call):
+        name = pf.dotted(h.func)
+        if name in ('dict', 'list', 'tuple', 'set', 'copy.copy', 'copy.deepcopy', 'deepcopy') and len(h.args) == 1 and not h.keywords:
+            if name in ('dict', 'list', 'set', 'tuple') and annotation is not None:
+                head = annotation.value if isinstance(annotation, ast.Subscript) else annotation
+                want = {'dict': ('Dict', 'dict', 'Mapping'), 'list': ('List', 'list', 'Sequence'), 'set': ('Set', 'set'), 'tuple': ('Tuple', 'tuple')}[name]
+                if pf.dotted(head) not in want:
+                    return False
+            return _is_identity_on(h.args[0], attr, annotation)
+        if name in ('int', 'str', 'bool', 'float') and len(h.args) == 1 and not h.keywords and annotation is not None and pf.dotted(annotation) == name:
+            return _is_identity_on(h.args[0], attr, annotation)
+        if name == 'json.loads' and len(h.args) == 1 and isinstance(h.args[0], ast.Call) and pf.dotted(h.args[0].func) == 'json.dumps' and len(h.args[0].args) == 1:
+            return _is_identity_on(h.args[0].args[0], attr, annotation)
+        if isinstance(h.func, ast.Attribute) and h.func.attr == 'copy' and not h.args and not h.keywords:
+            return _is_identity_on(h.func.value, attr, annotation)
+    if isinstance(h, ast.DictComp) and len(h.generators) == 1 and not h.generators[0].ifs:
+        g = h.generators[0]
+        if isinstance(g.iter, ast.Call) and isinstance(g.iter.func, ast.Attribute) and g.iter.func.attr == 'items' and not g.iter.args and isinstance(g.target, ast.Tuple) \
+                and len(g.target.elts) == 2 and pf.nsrc(h.key) == pf.nsrc(g.target.elts[0]) and pf.nsrc(h.value) == pf.nsrc(g.target.elts[1]):
+            return _is_identity_on(g.iter.func.value, attr, annotation)
+    if isinstance(h, (ast.ListComp,)) and len(h.generators) == 1 and not h.generators[0].ifs and pf.nsrc(h.elt) == pf.nsrc(h.generators[0].target):
+        return _is_identity_on(h.generators[0].iter, attr, annotation)
+    return False
+
+
+def _attr_occurrences(W: Dict[str, ast.expr], attr: str) -> List[Tuple[str, str, ast.AST]]:
+    """Every occurrence of self.<attr> in the written values, classified by what reaches the dictionary:
+       'whole'    the attribute itself (possibly through copies / views that keep every element),
+       'summary'  one element or one aggregate of it (subscript, .get(k), next(iter(.)), min / max / len / sum ...): many-to-one,
+       'other'    anything else (mapped, combined, passed to a function) - not classified.
+    Returns (key, class, the outermost sub-expression that still is the summary / whole value)."""
+    out: List[Tuple[str, str, ast.AST]] = []
+    for key, root in W.items():
+        par: Dict[int, ast.AST] = {}
+        for p in ast.walk(root):
+            for c in ast.iter_child_nodes(p):
+                par[id(c)] = p
+        for n in ast.walk(root):
+            if not (isinstance(n, ast.Attribute) and isinstance(n.value, ast.Name) and n.value.id == 'self' and n.attr == attr):
+                continue
+            node: ast.AST = n
+            kind = 'whole'
+            top: ast.AST = n
+            while node is not root:
+                p = par[id(node)]
+                if isinstance(p, ast.Subscript) and p.value is node:
+                    if isinstance(p.slice, ast.Slice) and p.slice.lower is None and p.slice.upper is None and p.slice.step is None:
+                        pass
+                    else:
+                        kind, top = 'summary', p
+                        break
+                elif isinstance(p, ast.Subscript):
+                    # self.other[self.attr]: used as an index
+                    kind = 'other'
+                    break
+                elif isinstance(p, ast.Attribute) and p.value is node:
+                    gp = par.get(id(p))
+                    if isinstance(gp, ast.Call) and gp.func is p and p.attr in _PASS_METHODS:
+                        node = p   # the call is looked at next
+                    elif isinstance(gp, ast.Call) and gp.func is p and p.attr == 'get':
+                        kind, top = 'summary', gp
+                        break
+                    else:
+                        kind = 'other'
+                        break
+                elif isinstance(p, ast.Call) and p.func is node:
+                    pass
+                elif isinstance(p, ast.Call) and node in p.args:
+                    name = pf.dotted(p.func)
+                    if name in _SUMMARISERS:
+                        kind, top = 'summary', p
+                        break
+                    if name in _PASS_CALLS and len(p.args) == 1 and not p.keywords:
+                        pass
+                    else:
+                        kind = 'other'
+                        break
+                else:
+                    kind = 'other'
+                    break
+                node = p
+                top = p
+            if kind == 'whole' and node is root and not _is_identity_on(root, attr, None):
+                # e.g. list(self.attr.keys()): a view that drops the values
+                kind = 'other'
+            out.append((key, kind, top))
+    return out
+
+
+def _compose(a2: ast.AST, data: str, W: Dict[str, ast.expr]) -> Tuple[ast.AST, List[str]]:
+    """from_dict's argument expression with every data[k] / data.get(k) replaced by what to_dict writes under k; also the keys read."""
+    import copy
+    keys: List[str] = []
+
+    class T(ast.NodeTransformer):
+        def visit_Subscript(self, node):
+            k = _data_key(node, data)
+            if k is not None and k in W:
+                keys.append(k)
+                return copy.deepcopy(W[k])
+            return self.generic_visit(node)
+
+        def visit_Call(self, node):
+            k = _data_key(node, data)
+            if k is not None and k in W:
+                keys.append(k)
+                return copy.deepcopy(W[k])
+            return self.generic_visit(node)
+    return T().visit(copy.deepcopy(a2)), keys
+
+
 def _data_key(e: ast.AST, data: str) -> Optional[str]:
     if isinstance(e, ast.Subscript) and isinstance(e.value, ast.Name) and e.value.id == data:
         return pf.const_str(e.slice)
@@ -117,11 +296,13 @@ def _data_key(e: ast.AST, data: str) -> Optional[str]:
     return None
 
 
-def _check_roundtrip(ctx: Ctx, m: pf.Module, cls: ast.ClassDef, dispatcher: Optional[str]) -> None:
+def _check_roundtrip(ctx: Ctx, m: pf.Module, cls: ast.ClassDef, dispatcher: Optional[str], billing_reads: Optional[Dict[str, str]] = None) -> None:
+    """billing_reads: attribute -> an expression of the billing path that reads it (None: every attribute counts)."""
     C = cls.name
     meths = _methods(cls)
     W = _written(ctx, m, cls)
     params, store = _init_map(ctx, m, cls)
+    ann, defaults = _param_info(meths['__init__'])
     fn = meths['from_dict']
     fparams = [a.arg for a in fn.args.args]
     ctx.need(len(fparams) == 1, f'{m.rel}::{C}.from_dict: parameters {fparams}')
@@ -289,8 +470,44 @@ def _check_roundtrip(ctx: Ctx, m: pf.Module, cls: ast.ClassDef, dispatcher: Opti
                 problems.append((role, f"on the path taken for a freshly written dictionary `{p}` is the constant {a2.value!r}, although to_dict writes self.{attr} under "
                                  f"'{keys_for_attr[0]}': the stored value is ignored on reload and the reloaded resource bills a different quantity", a2.lineno))
                 continue
+            # general case: compose from_dict's expression with what to_dict writes and compare with the attribute structurally
+            h, keys_read = _compose(a2, data, W)
+            if any(_data_key(n, data) is not None for n in ast.walk(h)):
+                continue  # reads a key that is not written: reported above
+            if keys_read and _is_identity_on(h, attr, ann.get(p)):
+                oks.append((role, f"{'/'.join(sorted(set(keys_read)))} -> `{short(pf.nsrc(a2), 50)}` -> {p} -> self.{attr}: from_dict o to_dict is the identity on it"))
+                continue
+            occ = _attr_occurrences(W, attr)
+            relevant = billing_reads is None or attr in billing_reads
+            rebuilt_collection = isinstance(a2, (ast.DictComp, ast.ListComp, ast.SetComp)) or (isinstance(a2, ast.Call) and pf.dotted(a2.func) in ('dict', 'list', 'set'))
+            if occ and all(k == 'summary' for _, k, _ in occ) and (_is_collection_annotation(ann.get(p)) or rebuilt_collection):
+                ctx.need(relevant, f'{base}: self.{attr} is serialised through a summary only, but the billing path does not read it (not decided)')
+                summ = '; '.join(sorted({f"'{k}' <- `{short(pf.nsrc(cf.expand(meths['to_dict'], t)), 90)}`" for k, _, t in occ}))
+                reader = f' (billing reads `{billing_reads[attr]}`)' if billing_reads and attr in billing_reads else ''
+                problems.append((role, f'self.{attr} is a collection{reader}, but to_dict writes only a summary of it - {summ} - i.e. one element / aggregate (many-to-one), and from_dict rebuilds '
+                                 f'the whole collection from that with `{short(pf.nsrc(a2), 110)}` (one-to-many): two {C} objects that differ in any other element (e.g. two entries of '
+                                 f'{attr} whose values diverge, such as two disk tiers with different product versions) serialise identically, so the reloaded object cannot equal both '
+                                 f'and bills that element under a different resource name / quantity than the object it was stored from', a2.lineno))
+                continue
+            if not occ and relevant and not any(k in keys_read for k in W):
+                raise AnalysisError(f'{base}.from_dict: `{p}` is computed by `{short(pf.nsrc(a2), 50)}`, which reads nothing to_dict writes (not a recognised shape)')
             raise AnalysisError(f'{base}.from_dict: argument `{short(pf.nsrc(a2), 50)}` for `{p}` is not a recognised shape')
         missing = [p for p in params if p not in [q for q, _ in pairs]]
+        for p in list(missing):
+            # a parameter with a default that from_dict never passes: the reloaded object always carries the default
+            if p in defaults and store.get(p) is not None:
+                attr = store[p]
+                keys_for_attr = [kk for kk, vv in W.items() if pf.nsrc(vv) == f'self.{attr}']
+                relevant = billing_reads is None or attr in billing_reads
+                if keys_for_attr or relevant:
+                    problems.append((f'{p} round trip', f'on the path taken for a freshly written dictionary from_dict never passes `{p}`, so the reloaded {C} has self.{attr} = '
+                                     f'{pf.nsrc(defaults[p])} (the default)'
+                                     + (f" although to_dict writes self.{attr} under '{keys_for_attr[0]}'" if keys_for_attr else f' and to_dict does not write self.{attr} at all')
+                                     + (f'; the billing path reads it (`{billing_reads[attr]}`)' if billing_reads and attr in billing_reads else '')
+                                     + f': an object created with another value bills differently after a store / reload', ret.lineno))  # type: ignore[union-attr]
+                    missing.remove(p)
+                elif not relevant:
+                    missing.remove(p)
         ctx.need(not missing, f'{base}.from_dict: constructor parameters {missing} not supplied')
     # type tag
     if 'type' in W:
